@@ -740,5 +740,9 @@ def classify(rec):
         found = sorted({k for k in keys if k != 'ok'})
         if len(found) == 1:
             return found[0]
+        if found == ['c14.2n-cancellation', 'c14.2n-capture-rate-subtraction']:
+            # a relation between evaluations of one 2n row, some explained by conditioning alone and some only
+            # by the lost capture rate: the violation as a whole needs the latter mechanism
+            return 'c14.2n-capture-rate-subtraction'
         return None
     return None
